@@ -19,7 +19,7 @@ EXPLANATION = (
     "ensure_column_exists / remove_column(s) evaluated on a real Table with two Rows sharing its headings list: afterwards "
     "every row sees exactly the table's headings and has one cell per heading.")
 NOT_DECIDED = ("cell values containing other column names beyond the sampled universe, name-annotation schemas (str.format on user schemas)")
-TECHNIQUE = "static analysis: abstract evaluation of the outline builder on a token heap with copy/deepcopy semantics (effect and provenance obligations) + structural effect rule on the Table mutators"
+TECHNIQUE = "static analysis: abstract evaluation of the outline builder on a token heap with copy/deepcopy semantics (effect and provenance obligations) + structural effect rule on the Table mutators; static constant propagation of the string-level glue (the source interpreted on enumerated literal inputs, stdlib calls folded) against oracles written in the rule"
 
 
 def run(chk, ix, tier):
